@@ -5,7 +5,7 @@
 set -u
 export GOFLAGS=-mod=mod GOPROXY=off GOSUMDB=off GOTOOLCHAIN=local
 S="$1"; MODE="${2:-both}"
-SIM=/verif/sim
+SIM=${VERIF_SIM:-/verif/sim}
 REPO="${VERIF_REPO:-/repo}"
 mkdir -p "$S" || exit 2
 if [ ! -x /verif/bin/simrewrite ] || [ $SIM/tools/simrewrite/main.go -nt /verif/bin/simrewrite ]; then
